@@ -21,6 +21,18 @@ def gen_table(rng, flavour=None, evil=0.0):
         by[51]["default"], by[51]["factory"] = None, rng.choice([("dict", [(V(1), V(1))]), ("dict", [(S(7), S(8))])])
     if rng.random() < evil:
         by[52]["default"], by[52]["factory"] = None, ("set", [S(7)])
+    # class-level defaults / overriding class attributes that do not conform: the
+    # constructor refuses them; `del` / reset_ / invalidation must refuse them too
+    if rng.random() < evil:
+        by[1]["default"] = rng.choice([S(7), NONE])
+    if rng.random() < evil:
+        by[3]["default"] = S(7)
+    if rng.random() < evil:
+        k1["attrs"][1]["default"] = S(7)
+    if rng.random() < evil:
+        for a in k3["attrs"]:
+            if a["aid"] == 1:
+                a["override"] = S(7)
     if rng.random() < 0.5:       # Union and Optional[spec] positions (not in the shared grammar)
         k2["attrs"].append({"aid": 6, "ty": ("union", ig.INT, ig.STR), "default": rng.choice([None, V(1), S(7)]),
                             "decl": rng.choice(["plain", "Attr"])})
